@@ -51,6 +51,7 @@ type FnCtx struct {
 	compRange map[string][2]string
 	specRecursive map[string]bool
 	named map[string]string
+	sortT map[string]types.Type
 	declConst map[string]bool
 	frameMode bool
 	unfoldDepth int
@@ -63,17 +64,29 @@ func newFnCtx(w *World, fn *ssa.Function, spec *FuncSpec) *FnCtx {
 	if fn.Pkg != nil {
 		fc.pkg = fn.Pkg.Pkg
 	}
-	for name, es := range w.specs.Ghost {
-		sortS := map[string]string{"bool": SBool, "int": SInt, "ptr": SPtr}[es]
-		if sortS == "" {
-			sortS = SInt
-		}
-		fc.comps[name] = arraySort(SPtr, sortS)
-		fc.compOrder = append(fc.compOrder, name)
-	}
-	sort.Strings(fc.compOrder)
 	fc.reset()
 	return fc
+}
+
+// ghostSort resolves the element sort of a ghost component declaration.
+func (fc *FnCtx) ghostSort(es string) string {
+	switch es {
+	case "bool":
+		return SBool
+	case "int":
+		return SInt
+	case "ptr":
+		return SPtr
+	}
+	if strings.HasPrefix(es, "map[int]") {
+		return arraySort(SInt, fc.ghostSort(strings.TrimPrefix(es, "map[int]")))
+	}
+	pk := ""
+	if fc.pkg != nil {
+		pk = fc.pkg.Name()
+	}
+	st := fc.resolveType(pk, es)
+	return st.Sort
 }
 
 func (fc *FnCtx) reset() {
@@ -85,6 +98,26 @@ func (fc *FnCtx) reset() {
 	fc.specDeclared = map[string]bool{}
 	fc.specRecursive = map[string]bool{}
 	fc.named = map[string]string{}
+	fc.sortT = map[string]types.Type{}
+	// ghost components exist in every context
+	for _, name := range sortedKeys(fc.w.specs.Ghost) {
+		var sortS string
+		func() {
+			defer func() {
+				if r := recover(); r != nil {
+					sortS = ""
+				}
+			}()
+			sortS = fc.ghostSort(fc.w.specs.Ghost[name])
+		}()
+		if sortS == "" {
+			continue // element type not visible from this package: the component cannot be used here
+		}
+		if _, ok := fc.comps[name]; !ok {
+			fc.comps[name] = arraySort(SPtr, sortS)
+			fc.compOrder = append(fc.compOrder, name)
+		}
+	}
 	fc.declConst = map[string]bool{}
 	fc.tpSorts = map[string]bool{}
 	fc.unsupported = nil
@@ -225,6 +258,7 @@ func (fc *FnCtx) structSort(t types.Type, st *types.Struct) string {
 			break
 		}
 	}
+	fc.sortT[name] = t
 	if !fc.decl["sort:"+name] {
 		fc.decl["sort:"+name] = true
 		var fl []string
